@@ -13,6 +13,9 @@ shim.install()
 from wpull.url import URLInfo, RELATIVE_SCHEME_DEFAULT_PORTS
 
 ALPHA = list(':/?#@[]%.') + list('0123456789') + list('aAfFxXzZ') + ['０', 'ｘ', '。', 'ß', '中', ' ', '-', '_', '~', '+', '&', '=', '\\']
+# grammar-aware tokens (percent escapes of delimiters / dots / unreserved characters, dot segments, numeric host spellings, IDN pieces)
+TOKENS = ['%2e', '%2E', '%2f', '%2F', '%25', '%7e', '%7E', '%41', '%61', '%3a', '%3F', '%23', '%40', '%5b', '%5D', '%20', '%00', '%0a', '%09', '%1f', '%c3%9f', '%',
+          '..', '.', '/', '//', 'a', 'B', '~', '-', '_', ':', '@', '?', '#', '[', ']', '0x10', '0X10', '010', '1', '255', '256', 'ß', '。', '０', 'xn--', '::1', ' ', '+', '&', '=', ';']
 POS = ['http://{}@h.example/p', 'http://{}/p', 'http://h.example:{}/p', 'http://h.example/{}', 'http://h.example/p?{}', '{}://h.example/p', 'http://u:{}@h.example/']
 ESC_LOWER = re.compile(r'%([0-9A-Fa-f][a-f]|[a-f][0-9A-Fa-f])')
 
@@ -55,6 +58,16 @@ def work(args):
                 r = check(u)
                 if r: bad.append((r[0], r[1]))
                 elif L and len(nontriv) < 200000: nontriv.add(hash(u))
+    # token sequences of length <= 3 (4 in the thorough tier)
+    for L in range(1, maxlen + 1):
+        for j, tup in enumerate(itertools.product(TOKENS, repeat=L)):
+            if j % n != k: continue
+            s = ''.join(tup)
+            for p in POS:
+                u = p.format(s); cnt += 1
+                r = check(u)
+                if r: bad.append((r[0], r[1]))
+                elif len(nontriv) < 400000: nontriv.add(hash(u))
     return cnt, len(nontriv), bad[:2000]
 
 
@@ -62,7 +75,7 @@ def main():
     ap = argparse.ArgumentParser(); ap.add_argument('--tier', default='quick'); ap.add_argument('--seed', type=int, default=0); ap.add_argument('--out')
     a = ap.parse_args()
     t0 = time.time()
-    maxlen = 3 if a.tier == 'quick' else 4
+    maxlen = 3 if a.tier == 'quick' else 4          # thorough: 40^4 strings and 53^4 token sequences per position
     n = 16
     with multiprocessing.Pool(n) as pool:
         res = pool.map(work, [(k, n, maxlen) for k in range(n)])
@@ -84,7 +97,7 @@ def main():
             if hit['what'] not in reported: reported.append(hit['what'])
         else: new.append({'clause': clause, 'detail': detail})
     doc = {'label': 'bounded', 'functions': ['wpull/url.py:URLInfo.parse', 'URLInfo.url'], 'cases': cases, 'distinct_nontrivial': distinct,
-           'bound': 'all strings of length <= %d over %d symbols in %d positions + seeded random strings <= 24 symbols x 3 codecs' % (maxlen, len(ALPHA), len(POS)),
+           'bound': 'all strings of length <= %d over %d symbols and all sequences of <= %d tokens out of %d grammar-aware tokens, each in %d positions; + seeded random strings <= 24 symbols x 3 codecs' % (maxlen, len(ALPHA), maxlen, len(TOKENS), len(POS)),
            'rule': 'exhaustive short strings per component position; a case is non-trivial when the string is non-empty and the URL parses',
            'result': 'no violation' if not new else '%d violations' % len(new), 'violations': new[:50], 'known_findings': reported,
            'samples': [POS[1].format('0x10'), POS[3].format('a/../b'), POS[0].format('u:p')], 'wall_s': round(time.time() - t0, 1)}
